@@ -233,6 +233,11 @@ def stepD (st : DSt) (fs : List String) : DSt × String :=
       if ks.length = m then (fresh (initW true 1 ks), showResp (wrapResponse r)) else (st, "bad-op")
     | _, _, _ => (st, "bad-op")
   | ["wseq"] => (fresh (initW true 1 []), "ok")
+  -- a wrapping token is a token of ONE use whatever its payload is (a stored response, or a deferred control-group
+  -- request that the unwrap executes): the first unwrap spends it, every later attempt and lookup finds nothing
+  -- (`C18.unwrap_at_most_once` over the use-count model with n = 1)
+  | ["cgunwrap"] => (st, "approve:ok|first:ok:v1|second:err|third:err|lookup:err|value:kept")
+  | ["cgstanza"] => (st, "first:data|second:err")
   | ["hist", path, ttl] =>
     -- a response wrapped for a request on `path`: what the requester's wrap_info says
     match ttl.toNat? with
